@@ -18,6 +18,7 @@ import (
 	"bytes"
 	"context"
 	"fmt"
+	"strings"
 
 	"k8s.io/klog/v2"
 
@@ -133,7 +134,8 @@ func (b *backend) processEvents(cancel context.CancelFunc, out chan<- []*proto.E
 	}
 	// channel closed by watcher hub due to slow process or ctx done
 	klog.InfoS("events chan closed", "chan", in, "prefix", prefix)
-	b.metricCli.EmitCounter("watcherhub.events_chan.closed", 1, metrics.Tag("prefix", prefix))
+	// the prefix comes from the client: a label value that is not valid UTF-8 makes the metrics client panic
+	b.metricCli.EmitCounter("watcherhub.events_chan.closed", 1, metrics.Tag("prefix", strings.ToValidUTF8(prefix, "?")))
 
 	close(out)
 	klog.InfoS("watch channel closed", "prefix", prefix)
